@@ -51,4 +51,5 @@ theorem runSizeLimiterShape : Facts.runSizeLimiterShape = Spec.runSizeLimiterSha
 theorem cachingFuncCalls : Facts.cachingFuncCalls = Spec.cachingFuncCalls := by rfl
 theorem readMappingShape : Facts.readMappingShape = Spec.readMappingShape := by rfl
 
+theorem readerNotifierShape : Facts.readerNotifierShape = Spec.readerNotifierShape := by rfl
 end Pins
